@@ -4,6 +4,7 @@ import AITB.Model.VE
 import AITB.Model.VETable
 import AITB.Model.GVE
 import AITB.Model.MaxPlus
+import AITB.Model.VEWritten
 import AITB.Gen.C13Facts
 open AITB AITB.Factored AITB.VE
 
@@ -45,11 +46,16 @@ def ve : P String := do
   let n := A.length
   let bm := bruteMax A rs
   let order := veOrder A rs
-  let mv := veValue A order rs
-  let ma := listOf n (veAction A order rs)
+  -- the semantic model evaluates nested closures (cost grows with the product of the sizes along the elimination order):
+  -- it is diffed on joint spaces up to 300 actions; the table-level models below (proved equal to it in value) run always
+  let semantic := space A ≤ 300
+  let mv := if semantic then veValue A order rs else iv
+  let ma := if semantic then listOf n (veAction A order rs) else ia
   -- table-level model (same data structure as the code)
   let (ta, tv) := tveRun A rs
-  let v : Verdict := { tag := if rs.isEmpty || n ≤ 1 then "trivial" else s!"ve comps{components n (rs.map (·.keys))}" }
+  -- the same run with the loop of removeFactor as written (enumerator state, jvID, walking cursor); proved equal (`tveRunW_eq`)
+  let (wa, wv) := tveRunW A rs
+  let v : Verdict := { tag := if rs.isEmpty || n ≤ 1 then "trivial" else s!"ve comps{components n (rs.map (·.keys))}{if semantic then "" else " table_models_only"}" }
   let v := v.failIf (!(validAct A ia)) s!"VariableElimination action_out_of_range {ia}"
   let v := v.failIf (payoffL rs ia != iv) s!"VariableElimination value_not_payoff_of_action reported={showQ iv} true={showQ (payoffL rs ia)}"
   let v := v.failIf (iv != bm) s!"VariableElimination not_optimal reported={showQ iv} max={showQ bm}"
@@ -57,6 +63,48 @@ def ve : P String := do
   let v := v.diffIf (ma != ia) s!"VariableElimination.action semantic-model={ma} impl={ia} order={order}"
   let v := v.diffIf (tv != iv) s!"VariableElimination.value table-model={showQ tv} impl={showQ iv}"
   let v := v.diffIf (ta != ia) s!"VariableElimination.action table-model={ta} impl={ia}"
+  let v := v.diffIf (wa != ia || wv != iv) s!"VariableElimination.as-written-loop model=({wa},{showQ wv}) impl=({ia},{showQ iv})"
+  return v.render
+
+def basis : P Basis := do
+  let k ← P.nats; let q ← P.qs
+  pure ⟨k, q⟩
+
+/-- `veqf call A bases | action value` : VariableElimination on a graph built by `UpdateGraphImpl<VE, QFunction>`.
+    The clauses use the DEFINITION `qfPayoff` (= `FactoredVector::getValue`); the optimum is the exhaustive maximum of the
+    cell-by-cell expansion, which has that payoff (`payoff_qfRules`). -/
+def veqf : P String := do
+  let _call ← P.nat
+  let A ← P.nats; let bs ← P.list basis; P.bar
+  let ia ← P.nats; let iv ← P.q; P.eof
+  if !(A.all (· > 0)) || !(bs.all (·.wfB A)) then return "skip bad_input" else
+  let rs := qfRules A bs
+  let bm := bruteMax A rs
+  let (ta, tv) := tveRunQF A bs
+  let (wa, wv) := tveRunWOn A (tInitQF bs [])
+  let dup := (bs.map (·.keys)).eraseDups.length != bs.length
+  let v : Verdict := { tag := if A.length ≤ 1 then "trivial" else s!"veqf comps{components A.length (bs.map (·.keys))}{if dup then " dup_tag" else ""}" }
+  let v := v.failIf (!(validAct A ia)) s!"VariableElimination action_out_of_range_qfunction {ia}"
+  let v := v.failIf (qfPayoff A bs ia != iv) s!"VariableElimination value_not_payoff_of_action_qfunction reported={showQ iv} true={showQ (qfPayoff A bs ia)}"
+  let v := v.failIf (iv != bm) s!"VariableElimination not_optimal_qfunction reported={showQ iv} max={showQ bm}"
+  let v := v.diffIf (ta != ia || tv != iv) s!"VariableElimination.qfunction-graph model=({ta},{showQ tv}) impl=({ia},{showQ iv})"
+  let v := v.diffIf (wa != ia || wv != iv) s!"VariableElimination.qfunction-graph.as-written-loop model=({wa},{showQ wv}) impl=({ia},{showQ iv})"
+  return v.render
+
+/-- `lsqf|mpqf|rilsqf call A bases | action value` : approximate maximisers on a graph made and updated by the QFunction overloads -/
+def approxqf (comp : String) : P String := do
+  let _call ← P.nat
+  let A ← P.nats; let bs ← P.list basis; P.bar
+  let ia ← P.nats; let iv ← P.q; P.eof
+  if !(A.all (· > 0)) || !(bs.all (·.wfB A)) then return "skip bad_input" else
+  let bm := bruteMax A (qfRules A bs)
+  let truth := qfPayoff A bs ia
+  let v : Verdict := { tag := if A.length ≤ 1 then "trivial" else (if truth == bm then "approxqf opt" else "approxqf subopt") }
+  let v := v.failIf (!(validAct A ia)) s!"{comp} action_out_of_range_qfunction {ia}"
+  let v := v.failIf (truth != iv) s!"{comp} value_not_payoff_of_action_qfunction reported={showQ iv} true={showQ truth}"
+  let v := v.failIf (decide (bm < iv)) s!"{comp} value_above_optimum_qfunction reported={showQ iv} max={showQ bm}"
+  let mg := evalGraph A ia (lsGraphQF bs)
+  let v := v.diffIf (mg != iv) s!"{comp}.evaluateGraph.qfunction-graph model={showQ mg} impl={showQ iv}"
   return v.render
 
 /-- `ls|mp|rils call A rules | action value` : approximate maximisers -/
@@ -98,7 +146,26 @@ def mpfull : P String := do
   if ma == ia && mv == iv then
     return (if rs.isEmpty || A.length ≤ 1 then "ok trivial" else s!"ok mpfull iters{iters}")
   else if !dyadic then return "skip ill_conditioned_division"
+  else if rs.any (fun r => decide (r.value < -1048576) || decide (1048576 < r.value)) then return "skip ill_conditioned_huge_messages"
   else return s!"diff MaxPlus.messagePassing model=({ma},{showQ mv}) impl=({ia},{showQ iv}) iters={iters}"
+
+/-- `lsgraph call A nodes | per agent: neighbours, adjacent factors` : FactorGraph bookkeeping against the model's
+    `nbrs` (recomputed from the key sets) and `adjNodes` (filter in node order) -/
+def lsgraphH : P String := do
+  let _call ← P.nat
+  let A ← P.nats; let nodes ← P.natss; P.bar
+  let per ← P.rep (do let nb ← P.nats; let fs ← P.natss; pure (nb, fs)) A.length
+  P.eof
+  let n := A.length
+  let g : List Node := nodes.map (fun k => ⟨k, []⟩)
+  -- `nbBuild`: the incremental sorted unions of `getFactor` as written, in node (= creation) order; `nbrs`: recomputed
+  let inc := nbBuild n nodes
+  let bad := (List.range n).find? (fun a =>
+    let p := per.getD a ([], [])
+    p.1 != nbrs n a nodes || p.1 != inc.getD a [] || p.2 != (adjNodes a g).map (·.keys))
+  match bad with
+  | some a => return s!"diff FactorGraph.bookkeeping agent={a} impl={per.getD a ([], [])} model=({nbrs n a nodes},{(adjNodes a g).map (·.keys)})"
+  | none => return (if nodes.isEmpty || n ≤ 1 then "ok trivial" else "ok lsgraph")
 
 /-! ### UCVE -/
 
@@ -195,6 +262,9 @@ def move : P String := do
   let fixedOK := fvals.all front.contains && front.all fvals.contains
   let v : Verdict := { tag := if n ≤ 1 then "trivial" else s!"move front{front.length}{shape}" }
   let v := v.failIf badTag.isSome s!"MultiObjectiveVariableElimination action_out_of_range"
+  -- a failure of a RECORDED kind must be explained by the as-found model (which shares the recorded defect): when the model
+  -- and the library disagree the clause name gets a suffix, so that an open finding cannot mask a different break
+  let shape := if sameSets then shape else shape ++ "_and_model_mismatch"
   let v := v.failIf (!missing.isEmpty) s!"MultiObjectiveVariableElimination pareto_vector_missing{shape} model_agrees_with_impl={sameSets} repaired_model_meets_spec={fixedOK} missing={missing.map (·.map showQ)} returned={implV.map (·.map showQ)}"
   let v := v.failIf (!extra.isEmpty) s!"MultiObjectiveVariableElimination non_pareto_vector_returned{shape} extra={extra.map (·.map showQ)}"
   let v := match badVal with
@@ -211,6 +281,11 @@ def handle (toks : List String) : String :=
     | "mp" :: rest => P.run (approx "MaxPlus") rest
     | "mpfull" :: rest => P.run mpfull rest
     | "rils" :: rest => P.run (approx "ReusingIterativeLocalSearch") rest
+    | "lsgraph" :: rest => P.run lsgraphH rest
+    | "veqf" :: rest => P.run veqf rest
+    | "lsqf" :: rest => P.run (approxqf "LocalSearch") rest
+    | "mpqf" :: rest => P.run (approxqf "MaxPlus") rest
+    | "rilsqf" :: rest => P.run (approxqf "ReusingIterativeLocalSearch") rest
     | "ucve" :: rest => P.run ucve rest
     | "move" :: rest => P.run move rest
     | _ => none
